@@ -24,6 +24,21 @@ RULE = ('concurrent case = one round (a plan of 1..12 keys, 1..3 creators per ke
 FLOORS = (200, 50)
 
 
+def _external_kill(r):
+    """SIGKILL cannot come from the code under test (no OOM here): another job on the shared box killed the process."""
+    return r.signal == 9 and not r.san and not r.of('violation') and not (r.stalled or r.timed_out)
+
+
+def _retry_killed(ctx, runner):
+    r = runner()
+    if _external_kill(r):
+        ctx.add_cov('rerun_after_external_sigkill', 1)
+        r = runner()
+        if _external_kill(r):          # twice: machinery trouble, never a verdict
+            r.signal = None; r.rc = 2
+    return r
+
+
 def _exe(ctx, flavour):
     return ctx.harness('c25_datarepo', flavour)
 
@@ -42,7 +57,7 @@ def run(ctx):
                        'execution streams adopted by harness threads while the runtime workers stay parked (context never started)']
     seed = ctx.seed
     jobs = []
-    rounds = 1500 if thorough else 60
+    rounds = 400 if thorough else 60
     for flavour in ('asan', 'rel'):
         exe = _exe(ctx, flavour)
         jobs.append(dict(kind='enum', flavour=flavour, par=3, cmd=[exe, '--mode', 'enum', '--threads', 3, '--maxops', 10 if thorough else 9, '--maxk', 2]))
@@ -51,13 +66,13 @@ def run(ctx):
                 if not thorough and (ti + yi + (flavour == 'rel')) % 3 == 0:
                     continue          # quick: two of the three delay settings per thread count and flavour
                 jobs.append(dict(kind='stress', flavour=flavour, par=1 if t >= 8 else 3,
-                                 cmd=[exe, '--mode', 'stress', '--threads', t, '--cases', 4 if thorough else 2, '--rounds', rounds * (2 if flavour == 'rel' else 1) // (2 if t == 16 else 1),
+                                 cmd=[exe, '--mode', 'stress', '--threads', t, '--cases', 3 if thorough else 2, '--rounds', rounds * (2 if flavour == 'rel' else 1) // (2 if t == 16 else 1),
                                       '--seed', seed * 3001 + ti * 10 + yi, '--yield', y, '--yield-us', us]))
 
     def one(j):
         what = '%s/%s' % (j['flavour'], ' '.join(str(c) for c in j['cmd'][1:]))
-        r, st = ctx.run_with_stall_rule(lambda: ctx.run([str(c) for c in j['cmd']], timeout=7200 if thorough else 900, stall_s=180,
-                                                        tag='%s-%s-%d' % (j['kind'], j['flavour'], id(j))), what)
+        r, st = ctx.run_with_stall_rule(lambda: _retry_killed(ctx, lambda: ctx.run([str(c) for c in j['cmd']], timeout=7200 if thorough else 900, stall_s=180,
+                                                        tag='%s-%s-%d' % (j['kind'], j['flavour'], id(j)))), what)
         return j, r, st
 
     res = ctx.pmap(one, [j for j in jobs if j['par'] == 3], jobs=3) + ctx.pmap(one, [j for j in jobs if j['par'] == 1], jobs=1)
